@@ -465,15 +465,33 @@ def _dynamic(case, v, log, stats):
   uid = 0
   for imp, path in picked:
     uid += 1
-    text = 'from __gin__ import dynamic_registration\n%s\n%s.a = %d\n' % (
-        c19.import_line(imp), c19.spell(imp, path), uid)
+    lines = ['from __gin__ import dynamic_registration', c19.import_line(imp),
+             '%s.a = %d' % (c19.spell(imp, path), uid)]
+    want_b = None
+    # (the reference always points at `consume`, which is never a binding
+    # target here, so no reference cycle can arise)
+    others = [o for o in c19.OBJECTS.get(imp['module'], []) if o == 'consume']
+    if rng.random() < 0.5 and not path.startswith('K') and others:
+      # a value holding a reference (to ANOTHER function) spelled through this
+      # file's import
+      tgt = others[0]
+      lines.append('%s.b = [@%s(), 1]' % (c19.spell(imp, path),
+                                          c19.spell(imp, tgt)))
+      want_b = [('result', imp['module'], tgt), 1]
+    text = '\n'.join(lines) + '\n'
     try:
       gin.parse_config(text)
+      # serialise in between: anything computed for one text must not go stale
+      # when the next file changes the import aliases
+      gin.config_str(max_line_length=case['width'],
+                     continuation_indent=case['indent'])
     except Exception as e:  # pylint: disable=broad-except
       v('C06.dynamic_parse', [type(e).__name__],
-        'parsing %r raised %r' % (text, e))
+        'parsing %r (then config_str) raised %r' % (text, e))
       return
     expected[(imp['module'], path)] = uid
+    if want_b is not None:
+      expected[(imp['module'], path, 'b')] = want_b
   try:
     S = gin.config_str(max_line_length=case['width'],
                        continuation_indent=case['indent'])
@@ -491,7 +509,10 @@ def _dynamic(case, v, log, stats):
       'config_str() under dynamic registration does not parse in a reset '
       'world: %s: %s\n%s' % (type(e).__name__, probes.scrub(str(e))[:300], S))
     return
-  for (module, path), val in sorted(expected.items()):
+  for key, val in sorted(expected.items(), key=repr):
+    if len(key) == 3:
+      continue
+    module, path = key
     obj = c19.lookup(mods, module, path)
     received.clear()
     try:
@@ -501,6 +522,14 @@ def _dynamic(case, v, log, stats):
         'after re-parsing, %s.%s is not configurable: %r\n%s' %
         (module, path, e, S))
       continue
+    want_b = expected.get((module, path, 'b'))
+    if want_b is not None:
+      got_b = received.get((module, path), {}).get('b')
+      if got_b != want_b:
+        v('C06.round_trip', ['dynamic', 'reference-value-lost-or-redirected'],
+          'after re-parsing config_str(), %s.%s received b=%r, expected %r '
+          '(a binding whose value holds a reference)\n%s' %
+          (module, path, got_b, want_b, S))
     got = received.get((module, path), {}).get('a')
     if got != val:
       v('C06.round_trip', ['dynamic', 'selector-resolves-to-other-object'],
